@@ -1147,6 +1147,14 @@ func (vc *FuncVC) evalCall(env *Env, x *ECall) *CVal {
 			}
 		}
 		panic(fmt.Errorf("inloop: no loop %d", k.V.Int64()))
+	case "dynkind":
+		// dynkind(x): the reflect.Kind of the dynamic type of interface value x (0 for nil)
+		v := arg(0)
+		if v.T.Sort != SIface {
+			panic(fmt.Errorf("dynkind: an interface value is expected"))
+		}
+		f := vc.declFun("kindOfTag", []string{SInt}, SInt)
+		return &CVal{T: Ite(Eq(v.T, T("nil_iface", SIface)), IntLit(0), T(app(f, T(app("tagOf", v.T), SInt)), SInt)), Typ: types.Typ[types.Int]}
 	case "mapat":
 		// mapat(m, k): the value stored under k (unspecified when k is absent; m[k] is the Go
 		// read that yields the zero value then). Free of conditionals, hence usable as a trigger.
@@ -1701,7 +1709,18 @@ func (vc *FuncVC) tryResolveType(src string) (t types.Type, ok bool) {
 			ok = false
 		}
 	}()
-	return vc.resolveType(src, ""), true
+	pkg := ""
+	if vc.C != nil && vc.C.Pkg != "" {
+		pkg = vc.C.Pkg
+	} else if fn := vc.Fn; fn != nil {
+		for fn.Parent() != nil {
+			fn = fn.Parent()
+		}
+		if fn.Pkg != nil {
+			pkg = fn.Pkg.Pkg.Path()
+		}
+	}
+	return vc.resolveType(src, pkg), true
 }
 
 // mapRangeOf finds the range-over-map iteration of loop li (its header takes Next of it),
